@@ -134,7 +134,7 @@ pub fn exports_probe<const N: usize>(cfg: &HxCfg, g: &Sodg<N>, m: &Model, hist: 
                 break;
             }
             mc.apply(&Op::Data(v));
-            if guarded(|| c.keys()).ok() != Some(mc.keys()) {
+            if guarded(|| crate::real::keys_sorted(&c)).ok() != Some(mc.keys()) {
                 break; // the collection itself went differently: C01/C02 judge that, not C18
             }
             let e2 = expected_vertices(&mc);
@@ -438,7 +438,7 @@ pub fn slice_add_probe<const N: usize>(g: &Sodg<N>, m: &Model, out: &mut Vec<Fin
             continue;
         }
         let Ok(Ok(s0)) = guarded(|| g.slice(v)) else { continue }; // C13 judges slice() itself
-        if guarded(|| s0.keys()).ok() != Some(reach.iter().copied().collect::<Vec<usize>>()) {
+        if guarded(|| crate::real::keys_sorted(&s0)).ok() != Some(reach.iter().copied().collect::<Vec<usize>>()) {
             continue;
         }
         for id in 0..m.cap {
@@ -500,7 +500,7 @@ fn fmt_kids(k: &[(Label, usize)]) -> String {
 /// Every public observable of a graph as one text (used for "answers every query alike").
 pub fn observe_all<const N: usize>(g: &Sodg<N>, with_slices: bool) -> String {
     let mut t = String::new();
-    let keys = guarded(|| g.keys()).unwrap_or_default();
+    let keys = guarded(|| crate::real::keys_sorted(g)).unwrap_or_default();
     t.push_str(&format!("keys={keys:?} len={:?} is_empty={:?}\n", guarded(|| g.len()).ok(), guarded(|| g.is_empty()).ok()));
     for v in &keys {
         let kids = guarded(|| kids_of(g, *v)).unwrap_or_default();
@@ -512,7 +512,7 @@ pub fn observe_all<const N: usize>(g: &Sodg<N>, with_slices: bool) -> String {
         t.push_str(&format!("inspect({v})={:?}\n", guarded(|| g.inspect(*v).ok()).ok().flatten()));
         if with_slices {
             // the slice with everything it shows, incl. how its vertices are grouped (Debug lists the groups)
-            t.push_str(&format!("slice({v})={:?}\n", guarded(|| g.slice(*v).ok().map(|s| (s.keys(), format!("{s:?}")))).ok().flatten()));
+            t.push_str(&format!("slice({v})={:?}\n", guarded(|| g.slice(*v).ok().map(|s| (crate::real::keys_sorted(&s), format!("{s:?}")))).ok().flatten()));
         }
     }
     t.push_str(&format!("debug={:?}\n", guarded(|| format!("{g:?}")).ok()));
